@@ -138,3 +138,14 @@ Theorem C02_trigger_entries_stay_in_place_when_there_is_no_gap :
          end).
 Proof. exact trigger_entries_stay_in_place. Qed.
 Print Assumptions C02_trigger_entries_stay_in_place_when_there_is_no_gap.
+
+(* ... and the section level above it: trigger k of the written TRIG section is the encoding of what was decoded from trigger k
+   of the read one; the section keeps its number of triggers (its size, 2400 bytes each, is C11) *)
+Theorem C02_every_trigger_keeps_its_position :
+  forall cx cx' v ts v',
+    trig_decode cx v = Ok ts -> trig_encode cx' ts = Ok v' ->
+    length (vlist "_triggers" v') = length (vlist "_triggers" v) /\
+    forall k tv, nth_error (vlist "_triggers" v) k = Some tv ->
+      exists t tv', trigger_decode cx tv = Ok t /\ trigger_encode cx' t = Ok tv' /\ nth_error (vlist "_triggers" v') k = Some tv'.
+Proof. exact trig_section_triggerwise. Qed.
+Print Assumptions C02_every_trigger_keeps_its_position.
